@@ -35,3 +35,4 @@ uint32_t G_TMR_STATE, G_TMR_CREATE_N, G_TMR_DELETE_N; int16_t G_TMR_LAST_ID; uin
 CO_TMR_FUNC G_TMR_LAST_FUNC; void *G_TMR_LAST_PARA; int16_t G_TMR_LAST_DEL; int16_t G_TMR_WATCH; uint32_t G_TMR_WATCH_DEL_N;
 uint32_t G_PDOINIT_N;
 uint32_t G_DV_KEY[4]; _Bool G_DV_OK[4]; uint32_t G_DV_VAL[4];
+uint32_t G_RESET_N_NODE, G_RESET_N_COM; uint8_t *V_SDOBUF_P;
